@@ -22,7 +22,7 @@ func checkC15(r *Run) {
 	parserMessagesRule(r, "R1")
 	evaluatorExitRule(r, "R2")
 	curStmtRule(r, "R3")
-	tokenLineRule(r, "R4")
+	tokenLineRuleSSA(r, "R4")
 	cursorOwnershipRule(r, "R5")
 	statementTokenRule(r, "R6")
 }
@@ -404,43 +404,14 @@ func cursorOwnershipRule(r *Run, rule string) {
 			return true
 		})
 	}
-	// the line bump: `if ch == '\n' { line++ }` located after the assignment of ch from input
-	okBump := false
-	var chAssign token.Pos
-	inspectBody(m.readChar.Decl.Body, false, func(n ast.Node) bool {
-		if as, ok := n.(*ast.AssignStmt); ok && len(as.Lhs) == 1 && len(as.Rhs) == 1 {
-			if _, fld := fieldOf(m.info, as.Lhs[0]); fld == m.ch {
-				if _, isIx := unparen(as.Rhs[0]).(*ast.IndexExpr); isIx {
-					chAssign = as.Pos()
-				}
-			}
-		}
-		return true
-	})
-	inspectBody(m.readChar.Decl.Body, false, func(n ast.Node) bool {
-		ifs, ok := n.(*ast.IfStmt)
-		if !ok || len(ifs.Body.List) != 1 {
-			return true
-		}
-		inc, ok := ifs.Body.List[0].(*ast.IncDecStmt)
-		if !ok || inc.Tok != token.INC {
-			return true
-		}
-		if _, fld := fieldOf(m.info, inc.X); fld != m.line {
-			return true
-		}
-		set, ok := m.byteSet(m.info, ifs.Cond, m.isChField)
-		if ok && len(set) == 1 && set[0] == '\n' && chAssign.IsValid() && ifs.Pos() > chAssign {
-			okBump = true
-		} else {
-			r.Bad(rule, m.readChar.Name(), "line bump under "+short(w.Fset, ifs.Cond), w.Pos(ifs.Pos()), "the line counter must advance exactly when the byte just consumed is '\\n'")
-		}
-		return true
-	})
-	if okBump {
-		r.Ok(rule, m.readChar.Name(), "line++ iff consumed byte is LF", w.Pos(m.readChar.Decl.Pos()), "condition evaluated for all 256 byte values")
+	// the line bump: on the in-range paths of readChar the counter advances by one exactly when the byte
+	// just consumed is '\n' (read from the paths of readChar)
+	if sum := w.lexSSA().readCharSummary(); sum.ok && sum.lineOnLF && !sum.lineSomewhereElse && sum.advances {
+		r.Ok(rule, m.readChar.Name(), "line++ iff consumed byte is LF", w.Pos(m.readChar.Decl.Pos()), "every in-range path: ch = input[readPosition], cursor +1, line +1 exactly under ch == '\\n'")
+	} else if sum.ok && !sum.advances {
+		r.Bad(rule, m.readChar.Name(), "cursor step of readChar", w.Pos(m.readChar.Decl.Pos()), "in range readChar must load input[readPosition] into ch, set position to it and advance readPosition by exactly one")
 	} else {
-		r.Bad(rule, m.readChar.Name(), "no line bump on LF", w.Pos(m.readChar.Decl.Pos()), "newlines are not counted")
+		r.Bad(rule, m.readChar.Name(), "no line bump on LF", w.Pos(m.readChar.Decl.Pos()), "the line counter must advance by one exactly when the byte just consumed is '\\n'")
 	}
 	// the constructor starts at line 1
 	if m.newFn != nil {
